@@ -214,6 +214,21 @@ pub fn resolve_arg(dir: &str, arg: &str) -> Option<String> {
     join_rel(dir, arg)
 }
 
+/// Like `resolve_arg`, following the symlinked directories planted in the project.
+pub fn resolve_arg_in(p: &Project, dir: &str, arg: &str) -> Option<String> {
+    if let Some(r) = arg.strip_prefix("@ROOT@/") {
+        return p.resolve(r);
+    }
+    if arg.starts_with('/') || arg.is_empty() {
+        return None;
+    }
+    if dir.is_empty() {
+        p.resolve(arg)
+    } else {
+        p.resolve(&format!("{dir}/{arg}"))
+    }
+}
+
 fn find_ids(cmd: &str, pat: &str) -> Vec<String> {
     // ids are [A-Za-z0-9_.]+ following `pat`
     let mut out = vec![];
@@ -271,7 +286,7 @@ pub fn analyze(p: &Project) -> Analysis {
             };
             match d.name.as_str() {
                 "include" | "after" => {
-                    if let Some(t) = resolve_arg(&s.dir, &d.args[0]) {
+                    if let Some(t) = resolve_arg_in(p, &s.dir, &d.args[0]) {
                         if !names::is_source_name(names::file_name(&t)) {
                             if let Some(j) = by_out.get(&t) {
                                 s.deps.push(DepRef {
@@ -284,7 +299,7 @@ pub fn analyze(p: &Project) -> Analysis {
                     }
                 }
                 "temp" => {
-                    if let Some(t) = resolve_arg(&s.dir, &d.args[0]) {
+                    if let Some(t) = resolve_arg_in(p, &s.dir, &d.args[0]) {
                         if !names::is_source_name(names::file_name(&d.args[0])) && !t.is_empty() {
                             s.temps.push(t);
                         }
